@@ -273,6 +273,8 @@ def run_header_vn(case, ctx):
         if not call(ctx, "add_line(str)", g.add_line, l).ok:
             return
     known = g.version
+    if known is None and case["how"] == "queued-only":
+        known = case["gfa_version"]     # (a queued line is of that version: the header must agree with it)
     value, way = case["value"], case["way"]
     before = O.obs(g)
 
